@@ -739,6 +739,11 @@ def gen_deg(rng, variant=None):
         s.var_lb[:] = -INF
         s.var_ub[:] = INF
         s.meta.update(family="DEG", variant="unconstrained")
+    elif variant == 6:  # zero Jacobian row of an equality that is satisfied everywhere (only on request)
+        s = gen_qp(rng, n=int(rng.integers(1, 6)), m=0)
+        n = s.n
+        s = Spec(s.Q, s.q, np.zeros((1, n)), [0.3], s.var_lb, s.var_ub, [0.3], [0.3], x0=s.x0, meta=dict(s.meta))
+        s.meta.update(family="DEG", variant="zero-row-eq")
     elif variant == 4:  # n = 1
         s = gen_qp(rng, n=1, m=0)
         s.meta.update(family="DEG", variant="n=1")
